@@ -219,6 +219,12 @@ func tcpSender(addr string) sender {
 			return nil, "dial: " + err.Error()
 		}
 		defer conn.Close()
+		return connExchange(conn, reqs, twoWay)
+	}
+}
+
+func connExchange(conn net.Conn, reqs [][]byte, twoWay int) ([][]byte, string) {
+	{
 		for _, r := range reqs {
 			conn.Write(wire.Frame(r))
 		}
@@ -245,6 +251,135 @@ func tcpSender(addr string) sender {
 		}
 		return out, ""
 	}
+}
+
+// ---- a listener the driver feeds with connections (for transports that fail on demand) ----
+
+type fakeListener struct {
+	ch   chan thrift.TTransport
+	quit chan struct{}
+	once sync.Once
+}
+
+func (f *fakeListener) Listen() error { return nil }
+func (f *fakeListener) Accept() (thrift.TTransport, error) {
+	select {
+	case t := <-f.ch:
+		return t, nil
+	case <-f.quit:
+		return nil, fmt.Errorf("listener closed")
+	}
+}
+func (f *fakeListener) Close() error     { f.once.Do(func() { close(f.quit) }); return nil }
+func (f *fakeListener) Interrupt() error { return f.Close() }
+
+// brokenPeer delivers the given bytes and fails every write: the peer vanished before its reply could be sent.
+type brokenPeer struct {
+	in      *bytes.Reader
+	wrote   chan struct{}
+	once    sync.Once
+	release chan struct{}
+}
+
+func (b *brokenPeer) Open() error  { return nil }
+func (b *brokenPeer) IsOpen() bool { return true }
+func (b *brokenPeer) Close() error { return nil }
+func (b *brokenPeer) Read(p []byte) (int, error) {
+	if b.in.Len() == 0 {
+		<-b.release
+		return 0, thrift.NewTTransportExceptionFromError(io.EOF)
+	}
+	return b.in.Read(p)
+}
+func (b *brokenPeer) Write(p []byte) (int, error) {
+	b.once.Do(func() { close(b.wrote) })
+	return 0, thrift.NewTTransportException(thrift.NOT_OPEN, "broken pipe")
+}
+func (b *brokenPeer) Flush(ctx context.Context) error { return nil }
+func (b *brokenPeer) RemainingBytes() uint64          { return ^uint64(0) }
+
+// brokenPeers: for every request kind, one connection whose peer vanishes before the reply is written; afterwards
+// a healthy connection must still get every kind of request answered (no request affects other connections).
+func brokenPeers(proto string) {
+	h := rig.NewHandler()
+	h.Script = script
+	pf := rig.ProtocolFactory(proto)
+	proc := verifrpc.NewFStoreProcessor(h)
+	ln := &fakeListener{ch: make(chan thrift.TTransport, 4), quit: make(chan struct{})}
+	srv := frugal.NewFSimpleServer(proc, ln, pf)
+	go srv.Serve()
+	defer srv.Stop()
+	env := &rig.Env{Kind: "tcp", Proto: proto, PF: pf, Handler: h, Processor: proc}
+	kinds := []string{"ok", "unknown", "declared", "undeclared", "appex", "badargs", "onewayfail"}
+	want := map[string]Reply{"ok": {0, "REPLY", "result"}, "declared": {0, "REPLY", "declared-exception"}, "unknown": {0, "EXCEPTION", "UNKNOWN_METHOD"},
+		"undeclared": {0, "EXCEPTION", "INTERNAL_ERROR"}, "appex": {0, "EXCEPTION", "handler-type"}}
+	for _, k := range kinds {
+		bp := &brokenPeer{in: bytes.NewReader(wire.Frame(request(pf, proto, k, int(nextOp())*100+1, nextOp()))), wrote: make(chan struct{}), release: make(chan struct{})}
+		ln.ch <- bp
+		select {
+		case <-bp.wrote:
+		case <-time.After(2 * time.Second):
+			res.Notes = append(res.Notes, "broken peer: the server never tried to write a reply for "+k)
+		}
+		// a healthy connection afterwards
+		// a real (buffered) loopback connection pair for the healthy peer
+		l, err := net.Listen("tcp", "127.0.0.1:0")
+		if err != nil {
+			fmt.Fprintln(os.Stderr, err)
+			os.Exit(2)
+		}
+		cc, err := net.Dial("tcp", l.Addr().String())
+		if err != nil {
+			fmt.Fprintln(os.Stderr, err)
+			os.Exit(2)
+		}
+		sc, err := l.Accept()
+		l.Close()
+		if err != nil {
+			fmt.Fprintln(os.Stderr, err)
+			os.Exit(2)
+		}
+		ln.ch <- thrift.NewTSocketFromConnConf(sc, nil)
+		var reqs [][]byte
+		ids := []uint64{}
+		follow := []string{"ok", "unknown", "undeclared"}
+		seqBase := int(nextOp()) * 100
+		for i, fk := range follow {
+			id := nextOp()
+			ids = append(ids, id)
+			reqs = append(reqs, request(pf, proto, fk, seqBase+i+1, id))
+		}
+		done := make(chan struct{})
+		var raw [][]byte
+		go func() { raw, _ = connExchange(cc, reqs, len(reqs)); close(done) }()
+		select {
+		case <-done:
+		case <-time.After(4 * time.Second):
+		}
+		cc.Close()
+		close(bp.release)
+		rp := map[string]interface{}{"server": "simple", "protocol": proto, "request_on_broken_connection": k, "requests_on_healthy_connection": follow}
+		if len(raw) != len(follow) {
+			resMu.Lock()
+			res.Violations = append(res.Violations, Violation{"tcp/broken-peer/other-connection-not-served/" + k, fmt.Sprintf("simple server, %s: after the reply to a %q request could not be written (peer gone), a healthy connection got %d of %d replies", proto, k, len(raw), len(follow)), rp})
+			resMu.Unlock()
+		} else {
+			for i, m := range raw {
+				p := parseReply(pf, m)
+				w := want[follow[i]]
+				if p.Err != "" || p.OpID != strconv.FormatUint(ids[i], 10) || p.Type != w.Type || p.What != w.What {
+					resMu.Lock()
+					res.Violations = append(res.Violations, Violation{"tcp/broken-peer/other-connection-reply/" + k, fmt.Sprintf("simple server, %s: after a failed reply write for %q, request %s on a healthy connection was answered %s %s %s", proto, k, follow[i], p.Type, p.What, p.Err), rp})
+					resMu.Unlock()
+				}
+			}
+		}
+		resMu.Lock()
+		res.Runs++
+		res.Requests += 1 + len(follow)
+		resMu.Unlock()
+	}
+	_ = env
 }
 
 func httpSender(url string) sender {
@@ -620,8 +755,9 @@ func main() {
 				}
 			}
 			env.Stop()
-			if kind != "tcp" || true {
-				concurrentPairs(kind, proto)
+			concurrentPairs(kind, proto)
+			if kind == "tcp" {
+				brokenPeers(proto)
 			}
 		}
 	}
